@@ -2,6 +2,7 @@ package iox
 
 import (
 	"errors"
+	"fmt"
 	"io"
 )
 
@@ -22,6 +23,7 @@ type Chunked struct {
 	idx      int
 	Reads    int
 	zeroRun  int
+	errRun   int
 }
 
 func (c *Chunked) Read(p []byte) (int, error) {
@@ -34,6 +36,12 @@ func (c *Chunked) Read(p []byte) (int, error) {
 	if c.pos >= limit {
 		if failing {
 			c.failed = true
+			c.errRun++
+			if c.errRun > 200000 {
+				// deterministic livelock guard (no clock): a Reader that keeps calling a source which
+				// answers every call with the same error, without ever returning to its caller
+				panic(fmt.Sprintf("LIVELOCK: the source has answered %d consecutive calls with its error %q and is still being called", c.errRun, c.FailErr))
+			}
 			return 0, c.FailErr
 		}
 		return 0, io.EOF
